@@ -32,6 +32,9 @@ func (i *kvIndex) UpdateIndex(oplog ipfslog.Log, _ []ipfslog.Entry) error {
 	size := len(entries)
 	verifhook.At("index.read", i, oplog, size)
 
+	// the view is what the log holds now: it is built anew, so that keys
+	// whose entries have left the log (a load with a limit cuts it) leave too
+	index := map[string][]byte{}
 	handled := map[string]struct{}{}
 
 	for idx := range entries {
@@ -50,12 +53,12 @@ func (i *kvIndex) UpdateIndex(oplog ipfslog.Log, _ []ipfslog.Entry) error {
 			handled[*item.GetKey()] = struct{}{}
 
 			if item.GetOperation() == "PUT" {
-				i.index[*item.GetKey()] = item.GetValue()
-			} else if item.GetOperation() == "DEL" {
-				delete(i.index, *item.GetKey())
+				index[*item.GetKey()] = item.GetValue()
 			}
 		}
 	}
+
+	i.index = index
 
 	return nil
 }
